@@ -246,7 +246,26 @@ func (m *Method) M__get__(instance, owner Object) (Object, error) {
 	if instance != None {
 		return NewBoundMethod(instance, m), nil
 	}
+	// A method of a Go type (as opposed to a function of a module) read
+	// from the class needs its receiver as the first argument
+	if m.Module == nil {
+		if t, ok := owner.(*Type); ok {
+			return &UnboundMethod{Method: m, Owner: definingType(t, m)}, nil
+		}
+	}
 	return m, nil
+}
+
+// definingType finds the type in the mro of t whose dictionary holds m
+func definingType(t *Type, m *Method) *Type {
+	for _, baseObj := range t.Mro {
+		if base, ok := baseObj.(*Type); ok {
+			if base.Dict[m.Name] == Object(m) {
+				return base
+			}
+		}
+	}
+	return t
 }
 
 // FIXME this should be the default?
